@@ -226,3 +226,62 @@ def replay_overwrite(payload):
             return {'fails': True, 'observed': f'err replaced by {e.err!r}', 'expected': f'{first!r}', 'confirmed': True}
         results.append(e.err)
     return {'fails': False, 'observed': 'first message kept', 'expected': 'first message kept'}
+
+
+def _default_args(fn):
+    import inspect
+    out = []
+    for name, prm in inspect.signature(fn).parameters.items():
+        if name == 'self':
+            continue
+        if prm.default is not inspect.Parameter.empty:
+            continue
+        out.append('QG' if name in ('cmd', 'qry', 'nickname', 'message', 'version_string', 'ebb_version_string') else 1)
+    return out
+
+
+FAILVAL = {'command': False, 'reboot': False, 'bootload': False, 'write_nickname': False, 'var_write': False, 'var_write_int32': False,
+           'query_current': (None, None)}
+SKIP = ('connect', 'disconnect', 'record_error', 'find_first', 'parse_version', 'min_version')
+
+
+def search_latch(_payload):
+    """every public request method on a blocked object (three states), default arguments"""
+    tried = 0
+    names = [n for n in dir(ebb3_motion.EBBMotionWrap) if not n.startswith('_') and callable(getattr(ebb3_motion.EBBMotionWrap, n)) and n not in SKIP]
+    for name in names:
+        args = _default_args(getattr(ebb3_motion.EBBMotionWrap, name))
+        variants = [args]
+        if name in ('command', 'query'):
+            variants = [[x] for x in ('R', 'RB', 'bl', 'QG', 'SM,1,0,0', ' r ')]
+        for a in variants:
+            for st in ({'port': False, 'err': None}, {'port': True, 'err': 'first error'}, {'port': False, 'err': 'first error'}):
+                tried += 1
+                out = replay_latch({'method': name, 'args': a, 'state': st, 'fail_value': FAILVAL.get(name)})
+                if out['fails']:
+                    return {'found': True, 'input': {'method': name, 'args': a, 'state': st}, 'observed': out['observed'], 'expected': out['expected'], 'tried': tried}
+    out = replay_overwrite({})
+    if out.get('fails'):
+        return {'found': True, 'input': 'latch an error, disconnect, connect again', 'observed': out['observed'], 'expected': out['expected'], 'tried': tried}
+    return {'found': False, 'tried': tried}
+
+
+def search_callers(_payload):
+    """every public request method against the conforming device with its k-th request failing (Err reply / write exception)"""
+    tried = 0
+    names = [n for n in dir(ebb3_motion.EBBMotionWrap) if not n.startswith('_') and callable(getattr(ebb3_motion.EBBMotionWrap, n))
+             and n not in SKIP + ('command', 'query', 'query_statusbyte', 'reboot', 'bootload')]
+    for name in names:
+        args = _default_args(getattr(ebb3_motion.EBBMotionWrap, name))
+        if name == 'motors_enable':
+            args = [0, 2]
+        if name == 'timed_pause':
+            args = [1600]
+        for k in range(0, 5):
+            for kind in ('fail', 'wfail'):
+                outcomes = ['x-ok'] * k + [f'x-{kind}']
+                tried += 1
+                out = replay_caller({'method': name, 'args': args, 'outcomes': outcomes, 'fail_value': FAILVAL.get(name)})
+                if out['fails'] and 'err not set' not in out['observed']:
+                    return {'found': True, 'input': {'method': name, 'args': args, 'failing_request': k, 'kind': kind}, 'observed': out['observed'], 'expected': out['expected'], 'tried': tried}
+    return {'found': False, 'tried': tried}
